@@ -9,6 +9,10 @@ nothing on refusal" are observed, not assumed), the accept/refuse outcome is
 compared with the model's prediction, and a refusal must be ValueError or
 TypeError.  dump_for_tree is compared with the model for base paths that are a
 component prefix, a textual-only prefix, unrelated or empty.
+
+Later additions: interludes inside the histories - del manifest[variant], del manifest[variant][arch], the manifest
+reading its own dump back - each followed by the next sub-package of the same build (identical source-package
+string); Modules.parse_uid results edited by the caller before the add.
 """
 import copy
 import io
